@@ -40,8 +40,40 @@ def sharded(ctx, name, args, shards):
 def _stats(paths):
     st = {"scenarios": 0, "messages": 0, "relayed": 0, "ia_pds": 0, "noprefix_answers": 0, "renew_exact": 0, "hintless_known": 0,
           "multi_prefix_answers": 0, "long_prefixes": 0, "nil_hints": 0, "exhausted_scenarios": 0, "kinds": set(), "max_N": 0,
-          "panics": 0}
+          "panics": 0, "alphabet_realised": {}}
     told, exhausted = {}, False
+    poollen = 0
+    real = st["alphabet_realised"]
+
+    def realised(kind, h, mine):
+        """does the hint, as the plugin saw it after the wire, have the shape its letter claims?"""
+        if kind == "nil":
+            return h["nil"]
+        if h["nil"]:
+            return False
+        if kind == "zero":
+            return h["zero"] and h["len"] == page
+        if kind == "zerol":
+            return h["zero"] and h["len"] > page
+        if kind.startswith("ownlen"):
+            return h["b"] >= 0 and any(b == h["b"] and ln != h["len"] for (b, ln) in mine)
+        if kind.startswith("own"):
+            return (h["b"], h["len"]) in mine and h["base"]
+        if kind == "other":
+            return h["b"] >= 0 and h["base"] and (h["b"], h["len"]) not in mine
+        if kind == "free":
+            return h["b"] >= 0 and h["base"] and h["len"] == page and h["bits"] == 128
+        if kind == "freel":
+            return h["b"] >= 0 and h["base"] and h["len"] > page
+        if kind == "inside":
+            return h["b"] >= 0 and h["len"] == 128
+        if kind == "outside":
+            return h["b"] < 0 and not h["zero"]
+        if kind == "biglen":
+            return h["b"] >= 0 and h["bits"] == 0          # no mask of that length exists: Mask is nil, Size() = 0, 0
+        if kind == "shortlen":
+            return h["b"] >= 0 and 0 < h["len"] < poollen
+        return True
     for p in paths:
         for line in open(p):
             e = json.loads(line)
@@ -51,6 +83,7 @@ def _stats(paths):
                 if exhausted:
                     st["exhausted_scenarios"] += 1
                 told, exhausted, page = {}, False, e["page"]
+                poollen = int(e["pool"].split("/")[1]) if "pool" in e else 0
             elif e["ev"] == "msg":
                 st["messages"] += 1
                 if e["relay"]:
@@ -62,6 +95,12 @@ def _stats(paths):
                     st["ia_pds"] += 1
                     for k in ia["kinds"]:
                         st["kinds"].add(k)
+                    if len(ia["kinds"]) == len(ia["hints"]):
+                        for k, h in zip(ia["kinds"], ia["hints"]):
+                            kk = k.rstrip("0123456789")
+                            real.setdefault(kk, [0, 0])
+                            real[kk][0] += 1
+                            real[kk][1] += 1 if realised(k, h, mine) else 0
                     if all(h["nil"] for h in ia["hints"]) and mine:
                         st["hintless_known"] += 1
                     for h in ia["hints"]:
@@ -82,6 +121,7 @@ def _stats(paths):
     if exhausted:
         st["exhausted_scenarios"] += 1
     st["kinds"] = sorted(st["kinds"])
+    st["alphabet_realised"] = {k: {"sent": v[0], "in_claimed_shape": v[1]} for k, v in sorted(real.items())}
     return st
 
 
@@ -158,6 +198,9 @@ def check(ctx):
         runner.run_job(ctx, _job(ctx, name, t))
         paths.append(t)
     st = _stats(paths)
+    hollow = [k for k, v in st["alphabet_realised"].items() if v["sent"] > 0 and v["in_claimed_shape"] == 0]
+    if hollow:
+        raise Infra("letters of the hint alphabet that never reached the plugin in the shape they claim: %s" % hollow)
     st["binding_selftest"] = selftest(ctx, paths[1]) if not ctx.violations else {"skipped": "violations reported"}
     ctx.trusted += ["harness/prefix.go: message construction through the codec (ToBytes/FromBytes both ways), prefix -> block index / base / length (math/big)",
                     "TLC evaluation of PrefixTrace guards"]
